@@ -199,6 +199,110 @@ def _install(be):
     S.entropy = entropy
 
 
+def _install_more(be):
+    """further wrappers: state/map conversion, stabilizer_state(), post-selection, bit-string probabilities,
+    sampling and the density-matrix expansion (records in the formats of TraceStab / TraceC19)"""
+    P, St = be.paulialg, be.stabilizer
+    pkg = be.name
+    S = St.StabilizerState
+    M = St.CliffordMap
+
+    def herm(w):
+        return w[-1] in (0, 2) and 9 not in w
+
+    orig_to_state = M.to_state
+
+    def to_state(self, r=None):
+        ret = orig_to_state(self, r)
+        try:
+            if self.N <= 4 and _depth[0] == 0:
+                rarg = 0 if r is None else int(r)
+                _out("stab", {"op": "tostate", "m": be.p_list(self), "rarg": rarg, "post": be.p_state(ret), "pkg": pkg, "src": "suite"})
+        except Exception:
+            pass
+        return ret
+    M.to_state = to_state
+
+    orig_post = getattr(S, "postselect", None)
+    if orig_post is not None:
+        def postselect(self, paulistring, postselect_res):
+            pre = None
+            try:
+                if self.N <= 4 and type(paulistring) is P.Pauli:
+                    pre = be.p_state(self)
+                    pw = be.p_pauli(paulistring)
+                    if not herm(pw) or int(postselect_res) not in (0, 1):
+                        pre = None
+            except Exception:
+                pre = None
+            try:
+                ret = orig_post(self, paulistring, postselect_res)
+            except ValueError:
+                if pre is not None:
+                    _out("c14", {"op": "postselect", "pre": pre, "p": pw, "b": int(postselect_res), "refused": "ValueError", "pkg": pkg, "src": "suite"})
+                raise
+            if pre is not None:
+                try:
+                    from .backend import dyadic, INEXACT
+                    _out("c14", {"op": "postselect", "pre": pre, "p": pw, "b": int(postselect_res), "prob": dyadic(ret) or INEXACT,
+                                 "post": be.p_state(self), "pkg": pkg, "src": "suite"})
+                except Exception:
+                    pass
+            return ret
+        S.postselect = postselect
+
+    orig_prob = S.get_prob
+
+    def get_prob(self, readout):
+        _depth[0] += 1
+        try:
+            ret = orig_prob(self, readout)
+        finally:
+            _depth[0] -= 1
+        try:
+            if self.N <= 4 and _depth[0] == 0 and self.r == 0:
+                from .backend import dyadic, INEXACT, _as_int
+                bits = [_as_int(b) for b in (readout.tolist() if hasattr(readout, "tolist") else list(readout))]
+                if all(b in (0, 1) for b in bits):
+                    _out("stab", {"op": "prob", "pre": be.p_state(self), "bits": [bits], "vals": [dyadic(ret) or INEXACT], "pkg": pkg, "src": "suite"})
+        except Exception:
+            pass
+        return ret
+    S.get_prob = get_prob
+
+    orig_sample = S.sample
+
+    def sample(self, L):
+        ret = orig_sample(self, L)
+        try:
+            if self.N <= 5 and int(L) <= 64:
+                st = be.p_state(self)
+                _out("c19", {"op": "sample", "pre": st, "L": int(L), "samples": be.p_list(ret), "pre1": st, "pkg": pkg, "src": "suite"})
+        except Exception:
+            pass
+        return ret
+    S.sample = sample
+
+    orig_ss = St.stabilizer_state
+
+    def stabilizer_state(*stabilizers):
+        ret = orig_ss(*stabilizers)
+        try:
+            lst = P.paulis(*stabilizers)
+            if lst.N <= 4 and lst.L <= lst.N:
+                ws = be.p_list(lst)
+                if all(herm(w) for w in ws):
+                    _out("stab", {"op": "fromstab", "n": int(lst.N), "stabs": ws, "fmt": "suite", "post": be.p_state(ret), "pkg": pkg, "src": "suite"})
+        except Exception:
+            pass
+        return ret
+    St.stabilizer_state = stabilizer_state
+    # (the packages re-export the constructor: patch the names users import)
+    for mod in (be.lib,):
+        if getattr(mod, "stabilizer_state", None) is orig_ss:
+            mod.stabilizer_state = stabilizer_state
+
+
 def pytest_configure(config):
     if not os.environ.get("VERIF_REC_DIR"):
         return
@@ -206,6 +310,7 @@ def pytest_configure(config):
     for name in ("py", "torch"):
         try:
             _install(backend.get(name))
+            _install_more(backend.get(name))
         except Exception as e:      # a package that cannot be imported is simply not recorded
             import sys
             sys.stderr.write("recorder: %s not instrumented: %s\n" % (name, e))
